@@ -57,11 +57,13 @@ func main() {
 	sizes := lg.AllSizes()
 	kinds := lg.Kinds()
 
-	nBlk := p.N(400, 50000)
-	nStream := p.N(60, 4000)
-	nSub := p.N(16, 600)
+	// thorough = all (size x kind) pairs once plus a rotated diagonal; sized for ~10 CPU-minutes in the plain
+	// build so that the tier stays inside its budget on a busy machine
+	nBlk := p.N(400, 14000)
+	nStream := p.N(60, 1500)
+	nSub := p.N(16, 200)
 	if p.Flavour != "" {
-		nBlk, nStream, nSub = p.N(130, 6000), p.N(20, 600), p.N(6, 100)
+		nBlk, nStream, nSub = p.N(130, 2000), p.N(20, 250), p.N(6, 40)
 	}
 	var cases []func(c *lg.Case)
 
